@@ -146,6 +146,17 @@ Definition grant_cores_ok (h : held) (sl : list slot) : bool :=
 Definition grant_gpus_ok (h : held) (u : Z) (sl : list slot) : bool :=
   let h' := (u, sl) :: h in
   forallb (fun t => let '(n, g, _) := t in gpu_total h' n g <=? 64) (concat (map slot_gpus sl)).
+(* the node map keeps ONE flag per GPU (BUSY / FREE): two tasks can only both
+   hold shares of one GPU if the map could tell them apart -- it cannot.  The
+   scheduler itself never lets two tasks share a GPU (a GPU with a share on it
+   is BUSY for every later search); an application-supplied placement can: then
+   the release of one task frees the GPU while the other still holds its share *)
+Definition gpu_used_by_other (h : held) (u : Z) (n : Z) (g : nat) : bool :=
+  existsb (fun us => negb (fst us =? u) &&
+                     existsb (fun t => let '(n', g', _) := t in (n' =? n) && Nat.eqb g' g)
+                             (concat (map slot_gpus (snd us)))) h.
+Definition grant_gpu_unshared_ok (h : held) (u : Z) (sl : list slot) : bool :=
+  forallb (fun t => let '(n, g, _) := t in negb (gpu_used_by_other h u n g)) (concat (map slot_gpus sl)).
 Definition grant_lfs_mem_ok (ns0 : list node) (h : held) (u : Z) (sl : list slot) : bool :=
   let h' := (u, sl) :: h in
   forallb (fun s => match find_node (s_node s) ns0 with
@@ -186,9 +197,10 @@ Definition c01_checks (ns0 : list node) : list (held -> Z -> list slot -> bool) 
   [ fun h _ sl => grant_cores_ok h sl;
     fun h u sl => grant_gpus_ok h u sl;
     fun h u sl => grant_lfs_mem_ok ns0 h u sl;
-    fun _ u sl => grant_usable_ok ns0 u sl ].
+    fun _ u sl => grant_usable_ok ns0 u sl;
+    fun h u sl => grant_gpu_unshared_ok h u sl ].
 
-(* clauses: the four checks for scheduler-chosen grants, then the same four
+(* clauses: the five checks for scheduler-chosen grants, then the same five
    for application-supplied grants *)
 Definition c01_bits (ns0 : list node) (ops : list op) (its : list (snap * list Z)) : list bool :=
   let pre := pre_uids ops in
